@@ -10,6 +10,7 @@ through it) and EVERY UCB index `val` (mean + exploration bonus), so no property
 -/
 import CobaVerif.Lemmas.C16
 import CobaVerif.Lemmas.C16Real
+import CobaVerif.Lemmas.C16Gen
 
 namespace Coba.C16
 open Coba.C05 (next)
@@ -363,5 +364,29 @@ theorem make_hashable_flavour_counterexample :
         (makeHashable (.sparse .odict [(.str "b", .num 2), (.str "a", .num 1)])) = true ∧
       pyEq (.sparse .odict [(.str "a", .num 1), (.str "b", .num 2)]) (.sparse .odict [(.str "b", .num 2), (.str "a", .num 1)]) = false) :=
   same_key_not_pyEq_witness
+
+/-! ## Phase 4 -/
+
+/-- translator obligation: `precision = 4` of `_log_barrier_omd`, the `float(2*M)` initial rho and the accepted `mode`
+strings, re-extracted from coba/learners/corral.py on every run (`Generated/C16CorralConsts.lean`), are what the model uses
+(`rounds1` = `round(.,precision) == 1`, `Corral.init`) -/
+theorem corral_consts_match :
+    (∀ y : Rat, rounds1 y = (decide (1 - 5 / (10 : Rat) ^ (Coba.Generated.C16.omdPrecision + 1) < y) &&
+        decide (y < 1 + 5 / (10 : Rat) ^ (Coba.Generated.C16.omdPrecision + 1)))) ∧
+    (∀ (fl : Rat → Rat) (M : Nat) (eta gamma beta : Rat) (imp : Bool) (rng : Nat),
+        (Corral.init fl M eta gamma beta imp rng).rhos = List.replicate M ((Coba.Generated.C16.rhoFactor : Rat) * (M : Rat))) ∧
+    Coba.Generated.C16.modes = ["importance", "off-policy"] := corral_consts_match'
+
+/-- offered lists with EQUAL members (no `Nodup`): every learner but BanditUCB (Fixed, Random, ε-greedy — `Kind.positional`) returns a
+drawn POSITION `i` of the offered list together with exactly the weight its pmf gives that position, and that weight is > 0 — never the
+weight of another, merely equal, member (round g: C05-gm2 looked the probability up by value) -/
+theorem predict_positional_with_equal_members (val : Act → Rat) (L : Learner) (actions : List Act) (hinv : L.kind.Inv)
+    (hne : actions ≠ []) (hpos : L.kind.positional = true) (hfit : Fits L.kind.arity actions.length) :
+    ∃ i p pmf, L.predict val actions = .ok ({ L with rng := Coba.C05.next L.rng }, i, p, pmf) ∧
+      L.kind.pmf val actions = .ok pmf ∧ Valid pmf actions.length ∧ i < actions.length ∧ pmf[i]? = some p ∧ 0 < p :=
+  Learner.predict_ok_dups val L actions hinv hne hpos hfit
+
+/-- the hypotheses are satisfiable by a list with equal members: `FixedLearner([0, 1/4, 3/4])` offered `[7, 3, 7]` -/
+example : (Kind.fixed [0, 1/4, 3/4]).positional = true ∧ ([7, 3, 7] : List Act) ≠ [] ∧ ¬ ([7, 3, 7] : List Act).Nodup := by decide
 
 end Coba.C16
